@@ -55,9 +55,19 @@ class Summary:
         """merged return value (phi over guarded returns); NONE if the function has no return"""
         if not self.returns:
             return T.NONE
-        out = self.returns[-1][1]
-        for g, t, _ in reversed(self.returns[:-1]):
-            conds = [c for c in g if c[0] not in ("loop", "while", "except", "try")]
+        # return k is reached only when the earlier returns were not taken: a conjunct that merely restates that (the negation of an
+        # earlier return's single-literal condition) is dropped, so `if a: return x` + `if b: return y` + `return z` is the same choice
+        # as the if / elif / else chain
+        known = set()
+        cleaned = []
+        for g, t, _ in self.returns:
+            conds = [c for x in g if x[0] not in ("loop", "while", "except", "try") for c in T.conjuncts(x)]
+            conds = [c for c in conds if c not in known]
+            cleaned.append((conds, t))
+            if len(conds) == 1:
+                known.add(T.b_not(conds[0]))
+        out = cleaned[-1][1]
+        for conds, t in reversed(cleaned[:-1]):
             out = T.phi(T.b_and(*conds), t, out)
         return out
 
@@ -260,7 +270,18 @@ class Eval:
         elif isinstance(target, ast.Attribute):
             base = self.ev(target.value)
             tt = T.attr(base, target.attr)
-            self.emit("store", st, target=tt, base=base, attr=target.attr, key=None, value=v, sub=False, aug=aug)
+
+            def attr_split(val):
+                if val[0] == "phi" and not aug:
+                    for cond, branch in ((val[1], val[2]), (T.b_not(val[1]), val[3])):
+                        self.guard.append(cond)
+                        try:
+                            attr_split(branch)
+                        finally:
+                            self.guard.pop()
+                else:
+                    self.emit("store", st, target=tt, base=base, attr=target.attr, key=None, value=val, sub=False, aug=aug)
+            attr_split(v)
             self.heap[tt] = v
         elif isinstance(target, ast.Subscript):
             base = self.ev(target.value)
@@ -392,11 +413,21 @@ class Eval:
         n0, r0 = len(self.summary.events), len(self.summary.returns)
         li0 = set(self.summary.loop_init)
         self.gblock(("loop", L, it), st.body)
+        it, inner_bvs = self.split_product(L, it, n0, r0, li0)
         it = self.canon_body(L, it, n0, r0, li0)
         # summarise loop-carried values
         for n in carried:
             new = self.env.get(n)
-            self.env[n] = self.loop_summary(n, L, it, init[n], new)
+            if inner_bvs and new is not None and any(T.contains(new, b) for b in inner_bvs):
+                lc = ("lc", n, L)
+                if new[0] == "app" and new[1] == lc and not T.contains(new[2], lc) and self._split_inner is not None:
+                    # a list built over both loops of a split product: the nested comprehension [elt for a in X for b in Y]
+                    fm = ("flatmap", mk_map(new[2], inner_bvs[0], self._split_inner), ("bv", L), it, T.TRUE)
+                    self.env[n] = fm if init[n] == T.seq(()) else ("concat", init[n], fm)
+                else:
+                    self.env[n] = ("loopres", n, L, init[n], new)      # accumulated over both loops of a split product: left opaque
+            else:
+                self.env[n] = self.loop_summary(n, L, it, init[n], new)
         # heap entries changed inside the loop become opaque
         for k in set(self.heap) | set(heap0):
             if self.heap.get(k) != heap0.get(k):
@@ -404,6 +435,43 @@ class Eval:
         if st.orelse:
             self.block(st.orelse)
         return None
+
+    def split_product(self, L, it, n0, r0, li0):
+        """`for a, b in itertools.product(X, Y)` is `for a in X: for b in Y`: the loop entry is replaced by two nested ones (the second
+        with a fresh bound variable) and each is canonicalised on its own.  -> (outer iterator, [inner bound variables])"""
+        self._split_inner = None
+        if not (it[0] == "call" and it[1] == "itertools.product" and len(it[2]) == 2 and not it[3]):
+            return it, []
+        X, Y = it[2]
+        bv = ("bv", L)
+        L2 = self.fresh()
+        bv2 = ("bv", L2)
+        mapping = {T.idx(bv, T.num(0)): bv, T.idx(bv, T.num(1)): bv2}
+
+        def f(t):
+            return T.substitute(t, mapping)
+
+        def fg(guard):
+            out = []
+            for g in rewrite_guard(guard, f):
+                if g[0] == "loop" and g[1] == L:
+                    out.append(("loop", L, X))
+                    out.append(("loop", L2, Y))
+                else:
+                    out.append(g)
+            return tuple(out)
+        for e in self.summary.events[n0:]:
+            g_old = e.guard
+            rewrite_event(e, f)
+            e.guard = fg(g_old)
+        self.env = {k: (f(v) if isinstance(v, tuple) else v) for k, v in self.env.items()}
+        self.heap = {(f(k) if isinstance(k, tuple) else k): (f(v) if isinstance(v, tuple) else v) for k, v in self.heap.items()}
+        self.summary.returns[r0:] = [(fg(g), f(t), n) for g, t, n in self.summary.returns[r0:]]
+        for k in list(self.summary.loop_init):
+            if k not in li0 and isinstance(self.summary.loop_init[k], tuple):
+                self.summary.loop_init[k] = f(self.summary.loop_init[k])
+        self._split_inner = self.canon_body(L2, Y, n0, r0, li0)
+        return X, [bv2]
 
     def canon_body(self, L, it, n0, r0, li0, extra=None):
         """rewrite everything the body of loop L produced into the canonical spelling of its iteration idiom"""
@@ -863,6 +931,17 @@ class Eval:
             it = self.ev(g.iter)
             L = self.fresh()
             bv = ("bv", L)
+            if it[0] == "call" and it[1] == "itertools.product" and len(it[2]) == 2 and not it[3] and isinstance(g.target, (ast.Tuple, ast.List)) \
+                    and len(g.target.elts) == 2:
+                # `for a, b in itertools.product(X, Y)` is `for a in X for b in Y`
+                L2 = self.fresh()
+                bv2 = ("bv", L2)
+                self.bind_target(g.target.elts[0], bv)
+                self.bind_target(g.target.elts[1], bv2)
+                cond = T.b_and(*[self.truth(self.ev(c)) for c in g.ifs]) if g.ifs else T.TRUE
+                gens.append((bv, it[2][0], T.TRUE))
+                gens.append((bv2, it[2][1], cond))
+                continue
             self.bind_target(g.target, bv)
             cond = T.b_and(*[self.truth(self.ev(c)) for c in g.ifs]) if g.ifs else T.TRUE
             gens.append((bv, it, cond))
@@ -1115,9 +1194,32 @@ class Eval:
 NO_AUTO_INLINE = {"_build_matrix"}
 
 
+_KNOWN = None
+
+
+def known_functions():
+    global _KNOWN
+    if _KNOWN is None:
+        import json
+        import os
+        p = os.path.join(os.path.dirname(os.path.abspath(__file__)), "known_functions.json")
+        try:
+            _KNOWN = set(json.load(open(p))["functions"])
+        except Exception:
+            _KNOWN = set()
+    return _KNOWN
+
+
 def auto_inline(target):
+    """private helpers, and functions that did not exist when the obligations were bound (helpers introduced by a later refactoring,
+    whatever they are called), are expanded at their call sites"""
     n = target.name
-    return n.startswith("_") and not n.startswith("__") and n not in NO_AUTO_INLINE and target is not None
+    if n.startswith("__") or n in NO_AUTO_INLINE:
+        return False
+    if n.startswith("_"):
+        return True
+    k = known_functions()
+    return bool(k) and target.qualname not in k and target.parent is None
 
 
 # ---------------------------------------------------------------------- term builders
